@@ -173,6 +173,37 @@ def expand_star_args(func: Func, call: ast.Call) -> ast.Call:
     return c
 
 
+def lazy_accessor(func: Func, field: str):
+    """Shape of a lazily building accessor of self.<field>, read per path: (guarded, build statements, returns_ok).
+      guarded       some path is taken only when `self.<field> is None` holds and some only when it does not
+      build stmts   the simple statements that run only under `self.<field> is None`
+      returns_ok    every returning path hands out self.<field> (or, on a building path, the very value it stored there)"""
+    from .symsum import cases, returning
+    atom = "self.%s is None" % field
+    cs = cases(func)
+    if not cs:
+        return False, [], False
+    rc = returning(cs)
+    pols = set()
+    ok = bool(rc)
+    for c in rc:
+        pol = next((p for t, p, _ in c.guards if t == atom), None)
+        pols.add(pol)
+        v = unparse(c.value) if c.value is not None else None
+        if v is not None and (v == "self.%s" % field or v.startswith(("self.%s[" % field, "self.%s." % field))):
+            continue
+        st = c.attrs.get("self.%s" % field)
+        if pol is True and st is not None and st[0] is not None and v == unparse(st[0]) and v != "None":
+            continue
+        ok = False
+    region = []
+    for n in own_nodes(func.node):
+        if isinstance(n, ast.stmt) and not isinstance(n, (ast.If, ast.For, ast.While, ast.Try, ast.With, ast.FunctionDef)):
+            if any(t == atom and p for t, p, _ in guards_of(n)):
+                region.append(n)
+    return (True in pols and (False in pols or None in pols)), region, ok
+
+
 def always_exits(stmts) -> bool:
     """no path falls off the end of the block: it ends in return / raise, or in an if/else whose branches both do"""
     if not stmts:
